@@ -72,19 +72,36 @@ func makeBatchQuery(filters []Filter) (string, []interface{}) {
 
 		if len(group.columns) == 1 {
 			column := group.columns[0]
-			clause.WriteString(column)
-			clause.WriteString(" IN (")
-			for j, tuple := range group.tuples {
-				// Separate tuples with commas.
-				if j > 0 {
-					clause.WriteString(", ")
+			// NULL is not IN anything; a nil value needs its own IS NULL.
+			var values []interface{}
+			hasNil := false
+			for _, tuple := range group.tuples {
+				if tuple[0] == nil {
+					hasNil = true
+				} else {
+					values = append(values, tuple[0])
 				}
-
-				// Write (?, ?, ?) string for the tuple, and append the arguments.
-				clause.WriteString("?")
-				args = append(args, tuple...)
 			}
-			clause.WriteString(")")
+			if len(values) > 0 {
+				clause.WriteString(column)
+				clause.WriteString(" IN (")
+				for j := range values {
+					// Separate values with commas.
+					if j > 0 {
+						clause.WriteString(", ")
+					}
+					clause.WriteString("?")
+				}
+				args = append(args, values...)
+				clause.WriteString(")")
+			}
+			if hasNil {
+				if len(values) > 0 {
+					clause.WriteString(" OR ")
+				}
+				clause.WriteString(column)
+				clause.WriteString(" IS NULL")
+			}
 		} else {
 
 			for i, tuple := range group.tuples {
@@ -99,9 +116,13 @@ func makeBatchQuery(filters []Filter) (string, []interface{}) {
 						clause.WriteString(" AND ")
 					}
 					clause.WriteString(column)
-					clause.WriteString("=?")
+					if tuple[j] == nil {
+						clause.WriteString(" IS NULL")
+					} else {
+						clause.WriteString("=?")
+						args = append(args, tuple[j])
+					}
 				}
-				args = append(args, tuple...)
 				if len(group.columns) > 1 {
 					clause.WriteString(")")
 				}
